@@ -1792,10 +1792,14 @@ fn validate_clientid(client_id: &str) -> Result<(), RouterError> {
     Ok(())
 }
 
+/// Splits `$share/<name>/<filter>` into the key of the shared group and `<filter>`.
+/// A shared subscription is identified by its share name *and* its topic filter (each
+/// filter has its own commitlog and therefore its own group cursor), so the key is
+/// `<name>/<filter>`: the same share name on two filters makes two independent groups.
 fn extract_group(filter: &str) -> Option<(String, String)> {
     filter.strip_prefix("$share/").and_then(|s| {
         s.split_once('/')
-            .map(|(group, path)| (group.to_string(), path.to_string()))
+            .map(|(_name, path)| (s.to_string(), path.to_string()))
     })
 }
 // #[cfg(test)]
